@@ -33,6 +33,37 @@ func doDump(p *Prog, what string) {
 			}
 		}
 		fmt.Println("unmodelled:", h.Unmodelled)
+	case strings.HasPrefix(what, "panics:"):
+		pc := newPanicChecker(p)
+		pc.assumeGetTyped = true
+		pc.assumeFilterTyped = true
+		var roots []*ssa.Function
+		for _, n := range strings.Split(strings.TrimPrefix(what, "panics:"), ",") {
+			if n == "ALL" {
+				roots = append(roots, p.Funcs...)
+				continue
+			}
+			if f := p.Fn(n); f != nil {
+				roots = append(roots, f)
+			} else {
+				fmt.Println("no such function", n)
+			}
+		}
+		nok, nbad := 0, 0
+		for _, f := range p.cg.Reachable(roots...) {
+			for _, s := range pc.sites(f) {
+				if s.OK {
+					nok++
+					if os.Getenv("SHOWOK") != "" {
+						fmt.Printf("ok   %-8s %s  %s\n", s.Class, s.Key, s.Detail)
+					}
+				} else {
+					nbad++
+					fmt.Printf("BAD  %-8s %s at %s: %s\n", s.Class, s.Key, p.pos(s.Ins.Pos()), s.Detail)
+				}
+			}
+		}
+		fmt.Printf("ok=%d bad=%d\n", nok, nbad)
 	case what == "externals":
 		dumpExternals(p)
 	case what == "funcs":
